@@ -23,7 +23,7 @@ LEVEL_NOTE = "trusted: determinism of the generated tests (no clock, no randomne
 RULE = ("one run = project (1-5 sites, previous content absent / arbitrary, hand-styled or tool-styled) + approved set F (all four in half of "
         "the runs) + formatter state; sessions S0-F->S1-F->S2 (sometimes a third repeat); distinct = (value type-path, op, formatter, F); "
         "non-trivial = the first session changed at least one file")
-RULE += " Dimensions added while testing against seeded changes: the compared object keeps changing after the comparison (mutation test); later sessions under another PYTHONHASHSEED; outsourced externals; persistent directory with bytecode caches and a logical clock; one == snapshot compared with equal but differently written values (1 / 1.0 / True / IntFlag)."
+RULE += " Dimensions added while testing against seeded changes: the compared object keeps changing after the comparison (mutation test); later sessions under another PYTHONHASHSEED; outsourced externals; persistent directory with bytecode caches and a logical clock; one == snapshot compared with equal but differently written values (1 / 1.0 / True / IntFlag); hash-length 64 / 8 in the externals projects; the repeated session removes no externals."
 ASSUMPTIONS = ["test bodies are deterministic", "runs whose first session did not complete are discarded (C18)"]
 REAL_VS_STUB = {
     "real": ["inline_snapshot library / plugin from /repo/src", "Example.run_inline (bulk)", "pytest + plugin (sample, gives exit status and report)", "black"],
